@@ -586,4 +586,17 @@ theorem resolveLoop_not_nameref (env : Bytes → Var) : ∀ (fuel : Nat) (name :
     · rw [if_pos hk]; exact hk
     · rw [if_neg hk]; exact ih _ _
 
+theorem resolveLoop_kind (env : Bytes → Var) (P : VKind → Prop) (h0 : P .unknown)
+    (henv : ∀ n, P (env n).kind) : ∀ (fuel : Nat) (name : Bytes) (v : Var), P v.kind →
+    P (resolveLoop env fuel name v).2.kind := by
+  intro fuel
+  induction fuel with
+  | zero => intro name v _; exact h0
+  | succ fuel ih =>
+    intro name v hv
+    unfold resolveLoop
+    by_cases hk : v.kind ≠ .nameRef
+    · rw [if_pos hk]; exact hv
+    · rw [if_neg hk]; exact ih _ _ (henv _)
+
 end ShVerif.C28
